@@ -379,7 +379,18 @@ func fieldChaseLoop(c *core.Ctx, f *ssa.Function, body map[*ssa.BasicBlock]bool)
 			}
 			// exit test: ph != nil guards the body
 			exits := false
+			// the value tested against nil is the pointer itself, or its next link (`if p.next == nil { break }`)
+			tested := append([]ssa.Instruction{}, *ph.Referrers()...)
 			for _, r := range *ph.Referrers() {
+				if fa, isFA := r.(*ssa.FieldAddr); isFA && core.FieldOf(fa) == fld {
+					for _, rr := range *fa.Referrers() {
+						if ld, isLd := rr.(*ssa.UnOp); isLd && ld.Op == token.MUL {
+							tested = append(tested, *ld.Referrers()...)
+						}
+					}
+				}
+			}
+			for _, r := range tested {
 				if bo, isBo := r.(*ssa.BinOp); isBo && (bo.Op == token.NEQ || bo.Op == token.EQL) {
 					if k, isK := bo.Y.(*ssa.Const); isK && k.IsNil() {
 						for _, rr := range *bo.Referrers() {
